@@ -12,7 +12,7 @@ open SfntV
 the decimal point -/
 def ValidOperand : Operand → Prop
   | .int v => -2147483648 ≤ v ∧ v ≤ 2147483647
-  | .real _ i l => 0 < i ∧ i < 10 ^ 9 ∧ -280 ≤ l ∧ l ≤ 280
+  | .real neg i l => (0 < i ∧ i < 10 ^ 9 ∧ -280 ≤ l ∧ l ≤ 280) ∨ (i = 0 ∧ neg = false ∧ l = 0)
   | .str _ => False
 
 /-- what the decoder delivers for a written operand: reals in normal form -/
@@ -31,14 +31,17 @@ theorem dictStep_operand (o : Operand) (h : ValidOperand o) (rest : Bytes) :
   cases o with
   | int v => exact dictStep_encodeInt v h rest
   | real neg i l =>
-    obtain ⟨h1, h2, h3, h4⟩ := h
-    simp only [encodeOperand, List.cons_append, dictStep]
-    have hv : (0x1e : UInt8).toNat = 30 := rfl
-    simp only [hv]
-    rw [if_neg (by omega), if_neg (by omega), if_neg (by omega), if_neg (by omega), if_neg (by omega)]
-    simp only [if_true]
-    rw [decodeReal_encodeReal_full neg i l rest h1 h2 ⟨h3, h4⟩]
-    rfl
+    rcases h with ⟨h1, h2, h3, h4⟩ | ⟨h1, h2, h3⟩
+    · simp only [encodeOperand, List.cons_append, dictStep]
+      have hv : (0x1e : UInt8).toNat = 30 := rfl
+      simp only [hv]
+      rw [if_neg (by omega), if_neg (by omega), if_neg (by omega), if_neg (by omega), if_neg (by omega)]
+      simp only [if_true]
+      rw [decodeReal_encodeReal_full neg i l rest h1 h2 ⟨h3, h4⟩]
+      rfl
+    · subst h1; subst h2; subst h3
+      simp [encodeOperand, encodeReal, dictStep, decodeReal, floatNibbles, nibChars, floatValue, parseDec,
+        parseUnsigned, takeDigits, isDig, clampValue, decOperand, stripZeros, numDigits, digitsOf, digitsAux]
   | str s => exact absurd h (by simp [ValidOperand])
 
 theorem dictStep_op (op : Nat) (h : ValidOp op) (rest : Bytes) :
